@@ -482,6 +482,38 @@ def reference(n: int):
     return q, p, evals
 
 
+def check_momentum_is_promoted_before_in_place_kicks(ctx, rep):
+    """C16.P (addition) — the momentum arrives in the precision of the mass matrix, the gradients in that of the parameters.  An in-place kick (`momentum -= ε·dU`) cannot
+    change the dtype of the momentum, an out-of-place one (`momentum = momentum − ε/2·dU`) takes the wider of the two.  Every in-place update of the momentum is therefore
+    dominated by an out-of-place arithmetic update (or an explicit conversion) of it: with the first kick in place a float32 momentum stays float32 and every later kick is
+    rounded to it — reversibility and the Hastings term are then good to 1e-7, not to round-off of the parameters."""
+    from sa.cfg import CFG
+    cls = ctx.classes.get(INTEGRATOR)
+    r = cls.resolve('__call__')
+    if r is None:
+        raise AnalysisError('LeapfrogIntegrator.__call__ not found')
+    fn, m = r[1], r[0].module
+    names = [a.arg for a in fn.args.args if 'momentum' in a.arg]
+    if len(names) != 1:
+        rep.undecided('C16.P', 'LeapfrogIntegrator.__call__::momentum-promoted-before-in-place-kicks', where(m, fn), f"momentum parameter not identified ({names})")
+        return
+    M = names[0]
+    cfg = CFG(fn)
+    inplace = [n for n in cfg.stmt_nodes() if isinstance(n.stmt, ast.AugAssign) and isinstance(n.stmt.target, ast.Name) and n.stmt.target.id == M]
+    promo = [n for n in cfg.stmt_nodes() if isinstance(n.stmt, ast.Assign) and any(isinstance(t, ast.Name) and t.id == M for t in n.stmt.targets) and (
+        (isinstance(n.stmt.value, ast.BinOp) and any(isinstance(x, ast.Name) and x.id == M for x in ast.walk(n.stmt.value))
+         and any(isinstance(x, ast.Name) and x.id != M for x in ast.walk(n.stmt.value)))
+        or (isinstance(n.stmt.value, ast.Call) and isinstance(n.stmt.value.func, ast.Attribute) and n.stmt.value.func.attr in ('to', 'type', 'double', 'type_as')))]
+    bad = [n for n in inplace if not any(cfg.dominates(p_, n) for p_ in promo)]
+    key = 'LeapfrogIntegrator.__call__::momentum-promoted-before-in-place-kicks'
+    if not inplace:
+        rep.ok('C16.P', key, where(m, fn), {'in_place_updates': 0})
+    else:
+        rep.check('C16.P', key, not bad, where(m, bad[0].stmt if bad else fn), {'in_place_updates': len(inplace), 'out_of_place_updates_before': len(promo)},
+                  f"`{norm_text(bad[0].stmt)[:60] if bad else ''}` updates the momentum in place before any out-of-place update has given it the precision of the gradients: with a "
+                  f"float32 mass matrix and float64 parameters every kick is rounded to float32 — the trajectory is reversible only to 1e-7 and the Hastings term is a float32 number")
+
+
 def check_integrator(ctx, rep):
     cls = ctx.classes.get(INTEGRATOR)
     r = cls.resolve('__call__')
@@ -928,7 +960,7 @@ def run(ctx, rep):
     rep.assumptions += ["Normal(0, s) has variance s²; MultivariateNormal(covariance_matrix=M) has covariance M", "U.backward() adds ∇U into .grad of the current leaves"]
     rep.not_decided += ["the O(ε²) energy error numerically", "round-off"]
     for f, rule in ((check_integrator, 'C16.P'), (check_operator, 'C16.K'), (check_no_selection_on_the_outcome, 'C16.K'), (check_momentum_space_dimension, 'C16.K'),
-                    (check_one_trajectory_per_proposal, 'C16.K')):
+                    (check_one_trajectory_per_proposal, 'C16.K'), (check_momentum_is_promoted_before_in_place_kicks, 'C16.P')):
         try:
             f(ctx, rep)
         except Unsupported as u:
